@@ -165,6 +165,7 @@ func runC07Contract(s *kernel.Sim) {
 		alloc[crypto.PubkeyToAddress(k.PublicKey)] = core.GenesisAccount{Balance: new(big.Int).Mul(eth, big.NewInt(100))}
 	}
 	backend := &lossyChain{SimulatedBackend: backends.NewSimulatedBackend(alloc, 8000000), drop: make(chan struct{})}
+	pendingDeposit := map[int]*big.Int{1: new(big.Int), 2: new(big.Int)} // submitted, not mined yet
 	defer backend.Close()
 	dropAt := -1
 	if s.Choose("sublost", 3) == 0 {
@@ -261,6 +262,11 @@ func runC07Contract(s *kernel.Sim) {
 		}
 		return b
 	}
+	mine := func() {
+		backend.Commit()
+		pendingDeposit[1].SetInt64(0)
+		pendingDeposit[2].SetInt64(0)
+	}
 	nops := 4 + s.Choose("nops", 12)
 	accepted := 0
 	var slowAnswer chan struct{}
@@ -337,8 +343,10 @@ func runC07Contract(s *kernel.Sim) {
 			settle()
 			s.Event("#%d the event subscription loses its connection (new one in %d operations)", i, resubOpensAt-i)
 		}
-		op := s.Choose("op", 18)
-		if op >= 14 {
+		op := s.Choose("op", 19)
+		if op == 18 {
+			op = 16
+		} else if op >= 14 {
 			op = 12 + (op-14)/2 // slow answers and delayed events are what this world is about
 		}
 		if hot > 0 && i <= hotUntil && s.Choose("hotop", 3) == 0 {
@@ -356,7 +364,7 @@ func runC07Contract(s *kernel.Sim) {
 			u := int64(1 + s.Choose("more", 30))
 			deposit(keys[w], u)
 			deposited[w].Add(deposited[w], new(big.Int).Mul(unit, big.NewInt(u)))
-			backend.Commit()
+			mine()
 			settle()
 			s.Event("#%d deposit(W%d, %d units), mined", i, w, u)
 		case op == 15: // somebody looks at the wallet (pool_account; every keep-alive of one of its nodes does the same)
@@ -367,7 +375,7 @@ func runC07Contract(s *kernel.Sim) {
 				s.Event("#%d pool_account(W%d) -> %v", i, w, err)
 			}
 		case op == 11: // a deposit that is never mined (replaced or dropped by its sender) while somebody looks at the wallet
-			backend.Commit()
+			mine()
 			settle()
 			auth := bind.NewKeyedTransactor(keys[w])
 			auth.Value = new(big.Int).Mul(unit, big.NewInt(int64(10+s.Choose("ghost", 30))))
@@ -408,7 +416,7 @@ func runC07Contract(s *kernel.Sim) {
 				u := int64(1 + s.Choose("more", 30))
 				deposit(keys[w], u)
 				deposited[w].Add(deposited[w], new(big.Int).Mul(unit, big.NewInt(u)))
-				backend.Commit()
+				mine()
 				settle()
 				s.Event("#%d deposit(W%d, %d units), mined; events are held up on their way to the pool", i, w, u)
 			} else {
@@ -420,21 +428,21 @@ func runC07Contract(s *kernel.Sim) {
 				s.Event("#%d chain exit(W%d): forceSettle: %v", i, w, err)
 				break
 			}
-			backend.Commit()
+			mine()
 			backend.AdjustTime(8 * 24 * time.Hour)
 			time.Sleep(8 * 24 * time.Hour) // the pool's clock moves with the chain's
-			backend.Commit()
+			mine()
 			if _, err := contract.ForceWithdraw(auth); err != nil {
 				s.Event("#%d chain exit(W%d): forceWithdraw: %v", i, w, err)
 				break
 			}
-			backend.Commit()
+			mine()
 			settle()
 			s.Event("#%d chain exit(W%d): deposit withdrawn on chain", i, w)
 		case op <= 4: // withdraw
 			withdraw(i, w, respellings && s.Choose("lookfirst", 2) == 0)
 		case op <= 6: // a block is mined: pending settlements and deposits take effect, events reach the pool
-			backend.Commit()
+			mine()
 			settle()
 			s.Event("#%d block mined", i)
 		case op == 7: // the wallet earns credit
@@ -448,7 +456,16 @@ func runC07Contract(s *kernel.Sim) {
 			u := int64(1 + s.Choose("more", 30))
 			deposit(keys[w], u)
 			deposited[w].Add(deposited[w], new(big.Int).Mul(unit, big.NewInt(u)))
+			pendingDeposit[w].Add(pendingDeposit[w], new(big.Int).Mul(unit, big.NewInt(u)))
 			s.Event("#%d deposit(W%d, %d units)", i, w, u)
+		case op == 16: // the node forgets what it had not mined yet (restart, eviction from its transaction pool)
+			backend.Rollback()
+			for k := 1; k <= 2; k++ {
+				deposited[k].Sub(deposited[k], pendingDeposit[k]) // those deposits never happened
+				pendingDeposit[k].SetInt64(0)
+			}
+			s.Fault("pending_transactions_dropped_by_the_node")
+			s.Event("#%d the node drops its pending transactions", i)
 		default:
 			time.Sleep(time.Duration(1+s.Choose("gap", 900)) * time.Second)
 			s.Settle()
@@ -457,16 +474,38 @@ func runC07Contract(s *kernel.Sim) {
 	}
 	// whatever was slow has arrived; every history can be continued by the wallets asking for their money once more
 	openGates(nops, true)
-	backend.Commit()
+	mine()
 	settle()
 	for w := 1; w <= 2 && !s.Violated(); w++ {
 		time.Sleep(time.Millisecond)
 		withdraw(nops+w, w, false)
 	}
-	backend.Commit()
+	mine()
 	settle()
-	backend.Commit()
+	mine()
 	settle()
+	// once nothing is in flight any more the pool's books and the contract agree about every deposit (a cache that
+	// is allowed to be ten minutes old has had its ten minutes)
+	time.Sleep(11 * time.Minute)
+	settle()
+	for w := 1; w <= 2 && !s.Violated(); w++ {
+		addr := crypto.PubkeyToAddress(keys[w].PublicKey)
+		onchain, err := contract.Accounts(nil, addr)
+		if err != nil {
+			panic(err)
+		}
+		if onchain.TimeLocked.Sign() != 0 {
+			continue
+		}
+		r, err := svc.Account(context.Background(), addr.Hex())
+		if err != nil {
+			s.Violate("deposit_view", "the pool cannot tell a wallet's balance although nothing is in flight", "W%d: pool_account: %v", w, err)
+			break
+		}
+		if r.Balance.Deposit.Cmp(onchain.Balance) != 0 {
+			s.Violate("deposit_view", "the pool's books and the contract disagree about a deposit although nothing is in flight", "W%d: the contract holds a deposit of %s, the pool says %s - and nothing is left that would correct it (every block is mined, every event delivered, every answer in; eleven minutes have passed)", w, onchain.Balance, &r.Balance.Deposit)
+		}
+	}
 	// everything that left the contract went to the two wallets; it is covered by what they put in and earned
 	covered := new(big.Int)
 	total := new(big.Int).Set(others)
